@@ -184,7 +184,9 @@ fn eval_in_child(c: &Case, dir: &PathBuf) -> Eval {
 
 fn run_case(ctx: &mut Ctx, c: &Case, dir: &PathBuf) {
     let cj = json!({"kind": "spin", "case": serde_json::to_value(c).unwrap(), "src": program(c, false)});
-    let kill_after = 20 * c.limit_ms + 10_000;
+    // (the outer watchdog covers up to three attempts; the heavy-native weight is the known late-timeout family,
+    // whose attempts take seconds each)
+    let kill_after = 20 * c.limit_ms + if WEIGHTS[c.weight] == "heavy-native" { 90_000 } else { 10_000 };
     let c2 = c.clone();
     let d2 = dir.clone();
     let mut ev = ctx.forked_eval(kill_after, move || eval_in_child(&c2, &d2));
@@ -276,7 +278,7 @@ fn replay(case: &Value) -> Option<Fail> {
             let c: Case = serde_json::from_value(case["case"].clone()).ok()?;
             let dir = module_dir("replay");
             // replays run in a child as well, so that a hang is reported rather than inherited
-            let kill_after = 20 * c.limit_ms + 10_000;
+            let kill_after = 20 * c.limit_ms + if WEIGHTS[c.weight] == "heavy-native" { 90_000 } else { 10_000 };
             let r = replay_in_child(&c, &dir, kill_after);
             let _ = std::fs::remove_dir_all(&dir);
             r
